@@ -234,14 +234,19 @@ impl<'a> StructureScanState<'a> {
 
         // Count for parent directory (if not excluded)
         if !is_count_excluded && let Some(parent) = path.parent() {
-            let parent_stats = self
-                .dir_entries
-                .entry(parent.to_path_buf())
-                .or_insert_with(|| DirStats {
-                    depth: self.root_depth + depth.saturating_sub(1),
-                    ..Default::default()
-                });
-            parent_stats.file_count += 1;
+            // A file that is itself the scan target says nothing about its directory: the
+            // siblings were not walked, so no count is recorded for it (a count of 1 would
+            // make the directory look evaluated, and a baselined limit look resolved).
+            if depth > 0 {
+                let parent_stats = self
+                    .dir_entries
+                    .entry(parent.to_path_buf())
+                    .or_insert_with(|| DirStats {
+                        depth: self.root_depth + depth.saturating_sub(1),
+                        ..Default::default()
+                    });
+                parent_stats.file_count += 1;
+            }
 
             self.check_allowlist_violations(path, parent, abs_path);
         }
